@@ -87,7 +87,18 @@ func HarnessC01Lookup(st any) {
 	sym.Assume(!hasEmptySegment(path))
 	req := &http.Request{Method: method, Host: host, URL: &url.URL{Path: path}}
 
+	// the same request twice: the second answer comes from a recycled context and must be identical
+	r0, c0, t0 := s.r.Lookup(nil, req)
+	var p0 []kv
+	if c0 != nil {
+		p0 = collectParams(c0)
+		c0.Close()
+	}
 	rte, cc, tsr := s.r.Lookup(nil, req)
+	sym.Assert(r0 == rte && t0 == tsr, "the same request gives the same answer on a recycled context")
+	if cc != nil && c0 != nil {
+		sym.Assert(sameParams(p0, collectParams(cc)), "the same request gives the same parameters on a recycled context")
+	}
 	want := s.ref.lookup(method, host, path, true)
 	if want.ambiguous {
 		sym.Cover("ambiguous (don't care)")
